@@ -382,7 +382,7 @@ func (t *ART) newLeaf(key artKey) (artNode, *artLeaf) {
 
 func (t *ART) setValue(addr arena.MemdbArenaAddr, l *artLeaf, value []byte, ops []kv.FlagsOp) {
 	flags := l.GetKeyFlags()
-	if flags == 0 && l.vLogAddr.IsNull() || l.isDeleted() {
+	if l.isDeleted() {
 		t.len++
 		t.size += int(l.keyLen)
 	}
